@@ -1,6 +1,7 @@
 package chainsim
 
 import (
+	"crypto/sha256"
 	"bytes"
 	"context"
 	"fmt"
@@ -638,6 +639,33 @@ func catalogue() []corruption {
 			}
 			return false
 		}},
+		{"bls-change/of-a-validator-with-an-unknown-credentials-prefix", true, func(s *sim, r *blockRefs, pre *stateBox) bool {
+			if r.changes == nil || uint64(len(*r.changes)) >= uint64(s.w.spec.MAX_BLS_TO_EXECUTION_CHANGES) {
+				return false
+			}
+			vals, _ := pre.st.Validators()
+			n, _ := vals.ValidatorCount()
+			for v := uint64(0); v < n; v++ {
+				val, _ := vals.Validator(common.ValidatorIndex(v))
+				wc, _ := val.WithdrawalCredentials()
+				ki := s.w.keyOf(pre.st, common.ValidatorIndex(v))
+				if ki < 0 || wc[0] == common.ETH1_ADDRESS_WITHDRAWAL_PREFIX || wc[0] == common.BLS_WITHDRAWAL_PREFIX {
+					continue
+				}
+				// the rest of the credentials IS the hash of the validator's key: only the prefix is in the way
+				hh := sha256.Sum256(s.w.keys.pub[ki][:])
+				if !bytes.Equal(wc[1:], hh[1:]) {
+					continue
+				}
+				ch := common.BLSToExecutionChange{ValidatorIndex: common.ValidatorIndex(v), FromBLSPubKey: s.w.keys.pub[ki]}
+				ch.ToExecutionAddress[3] = 0x78
+				dom := computeDomain(common.DOMAIN_BLS_TO_EXECUTION_CHANGE, s.w.spec.GENESIS_FORK_VERSION, s.w.gvr)
+				sc := common.SignedBLSToExecutionChange{BLSToExecutionChange: ch, Signature: s.w.keys.sign(ki, signingRoot(ch.HashTreeRoot(tree.GetHashFn()), dom))}
+				*r.changes = append(append(common.SignedBLSToExecutionChanges(nil), *r.changes...), sc)
+				return true
+			}
+			return false
+		}},
 		{"attester-slashing/signature", true, func(s *sim, r *blockRefs, _ *stateBox) bool {
 			if len(*r.as) == 0 {
 				return false
@@ -996,7 +1024,7 @@ func (s *sim) byzantine(parent *blockRec, blk *blockRec) {
 	// rare-state corruptions are tried first whenever the state allows them
 	var rare []corruption
 	for _, c := range cat {
-		if strings.HasSuffix(c.name, "of-withdrawable-validator") || c.name == "exit/too-young" || strings.HasSuffix(c.name, "under-current-version") || strings.HasSuffix(c.name, "-one-twice") || c.name == "deposit/first-one-repeated" || c.name == "attester-slashing/surround-in-the-wrong-order" || strings.HasPrefix(c.name, "withdrawals/sweep-") {
+		if strings.HasSuffix(c.name, "of-withdrawable-validator") || c.name == "exit/too-young" || strings.HasSuffix(c.name, "under-current-version") || strings.HasSuffix(c.name, "-one-twice") || c.name == "deposit/first-one-repeated" || c.name == "attester-slashing/surround-in-the-wrong-order" || strings.HasPrefix(c.name, "withdrawals/sweep-") || strings.HasSuffix(c.name, "unknown-credentials-prefix") {
 			rare = append(rare, c)
 		}
 	}
@@ -1166,3 +1194,37 @@ func (s *sim) verdicts(parent *blockRec, pm *refspec.State, variant common.SpecO
 
 var _ = beacon.NewForkDecoder
 var _ view.View
+
+// secondBlockOfSlot: a second block for the slot of `first`, applied to the post-state of `first` without
+// any slot processing in between (the entry point that runs process_block plus the result checks).
+func (s *sim) secondBlockOfSlot(first, forged *blockRec) {
+	w := s.w
+	spec := w.spec
+	pm, err := s.modelOf(first.post.st)
+	if err != nil {
+		return
+	}
+	msg := reflect.ValueOf(forged.signed).Elem().FieldByName("Message").Addr().Interface()
+	merr := refspec.ProcessBlock(spec, pm, msg)
+	if merr != nil && strings.Contains(merr.Error(), "model panic") {
+		s.res.Harness = "refspec: " + merr.Error()
+		s.stop = true
+		return
+	}
+	s.res.Stat("fault_byz_block/header/second-block-of-slot-on-post-state", 1)
+	box, _ := first.post.copy()
+	var zerr error
+	if p := guard(func() {
+		zerr = common.PostSlotTransition(context.Background(), spec, box.epc, box.st, forged.env, false)
+	}); p != nil {
+		s.viol("C03", "panic/second-block-of-slot/"+p.frame, p.val)
+		return
+	}
+	if merr != nil && zerr == nil {
+		s.viol("C03", "accepted-invalid/header/second-block-of-slot", fmt.Sprintf("a second block of proposer %d for slot %d (%s), applied to the post-state of the first without processing a slot: the specification's process_block rejects it (%v), zrnt's PostSlotTransition accepts it", forged.env.ProposerIndex, forged.slot, forkName(box.st), merr))
+	}
+	if merr == nil {
+		s.res.Harness = "the model accepts a second block for the slot of the latest header"
+		s.stop = true
+	}
+}
